@@ -507,6 +507,75 @@ def explore_events(ctx, base):
     ctx.sample({"watchdog_events": "created x2, created dot-file, dir created, moved, lock deleted, created while locked, marker, outside root", "registered": got})
 
 
+def explore_event_sequences(ctx, base, n):
+    """random watchdog event sequences on the real handler: which files end up registered depends only on the final names on disk
+    that an event pointed at (the destination of a rename, the file a deleted lock guarded), never on the name a file had before"""
+    from alpenhorn.daemon import auto_import as AI
+    from alpenhorn.daemon import update as U
+    from watchdog.events import DirMovedEvent, FileCreatedEvent, FileDeletedEvent, FileMovedEvent
+
+    rng = ctx.rng
+    for k in range(n):
+        shutil.rmtree(base, ignore_errors=True)
+        w.fresh_db()
+        install_detector()
+        DETECT["map"] = {}
+        g = w.mkgroup("g")
+        node = w.mknode(base, "n", g, stype="F")
+        root = pathlib.Path(node.root)
+        (root / "acq" / "sub").mkdir(parents=True)
+        queue = w.StepQueue.make()
+        unode = U.UpdateableNode(queue, w.StorageNode.get(id=node.id))
+        h = AI.RegisterFile(unode, queue)
+        expect, log = set(), []
+        for j in range(rng.randint(1, 6)):
+            d = rng.choice(["acq", "acq/sub"])
+            name = f"f{j}"
+            kind = rng.choice(["created", "created-dot", "moved-from-dot", "moved-from-plain", "moved-to-dot", "lock-deleted", "lock-deleted-still-locked", "moved-dir", "created-absent"])
+            final = root / d / name
+            log.append((kind, f"{d}/{name}"))
+            if kind == "created":
+                final.write_bytes(b"x" * j)
+                h.on_created(FileCreatedEvent(str(final)))
+                expect.add(f"{d}/{name}")
+            elif kind == "created-dot":
+                (root / d / ("." + name)).write_bytes(b"x")
+                h.on_created(FileCreatedEvent(str(root / d / ("." + name))))
+            elif kind == "moved-from-dot":
+                # how rsync and friends deliver a file: written under a temporary dot-name, then renamed into place
+                final.write_bytes(b"y" * j)
+                h.on_moved(FileMovedEvent(str(root / d / f".{name}.Xq3f"), str(final)))
+                expect.add(f"{d}/{name}")
+            elif kind == "moved-from-plain":
+                final.write_bytes(b"z" * j)
+                h.on_moved(FileMovedEvent(str(root / d / (name + ".part")), str(final)))
+                expect.add(f"{d}/{name}")
+            elif kind == "moved-to-dot":
+                (root / d / ("." + name)).write_bytes(b"x")
+                h.on_moved(FileMovedEvent(str(final), str(root / d / ("." + name))))
+            elif kind == "lock-deleted":
+                final.write_bytes(b"l" * j)
+                h.on_deleted(FileDeletedEvent(str(root / d / f".{name}.lock")))
+                expect.add(f"{d}/{name}")
+            elif kind == "lock-deleted-still-locked":
+                final.write_bytes(b"l")
+                (root / d / f".{name}.lock").write_bytes(b"")
+                h.on_created(FileCreatedEvent(str(final)))
+            elif kind == "moved-dir":
+                (root / d / (name + "dir")).mkdir()
+                h.on_moved(DirMovedEvent(str(root / d / "olddir"), str(root / d / (name + "dir"))))
+            else:
+                h.on_created(FileCreatedEvent(str(final)))  # the file is gone again before the import runs
+        exits, aborted = w.drain_with_workers(queue)
+        got = {f"{f.acq.name}/{f.name}" for f in w.ArchiveFile.select()}
+        ncopies = w.ArchiveFileCopy.select().where(w.ArchiveFileCopy.has_file == "Y").count()
+        ctx.count("watchdog-events", len(log))
+        ctx.distinct_add(("evseq", tuple(log)))
+        if got != expect or ncopies != len(expect) or aborted:
+            ctx.fail("C04:watchdog", f"watchdog events {log}: registered {sorted(got)} with {ncopies} present copies, expected {sorted(expect)}; abort={aborted}", {"family": "event-sequence", "events": log})
+            break
+
+
 def explore(ctx):
     base = ctx.tmp() / "sim"
     iterms, vterms, keep = [], [], []
@@ -540,6 +609,7 @@ def explore(ctx):
     bad = core.run_cases(ctx, "conc", "Corr.C04", "ccase", "ccheck", cterms, shard=1000, extra_imports=("Model.Import",))
     for i in bad[:3]:
         ctx.broke("correspondence", f"two importers: final copy row not reachable in the model: {cterms[i]}")
+    explore_event_sequences(ctx, ctx.tmp() / "evseq", 40 if ctx.quick() else 1500)
     explore_events(ctx, ctx.tmp() / "ev")
 
 
